@@ -11,6 +11,36 @@ TB = ("Trusted base: Coq 8.16.1 kernel (full .vo build, vm_compute for evaluatin
       "third-party libraries (np-guard/models interval+netset, apimachinery selectors, YAML/JSON decoding, cli-runtime) are represented by their results.")
 
 CHECKS = {
+ 'C01': dict(
+   text="Machine-checked proof (Coq) that the set-based evaluation the Go code performs (mirrored function by function in Model/Eval.v, Model/Connlist.v) computes, whenever it succeeds, "
+        "exactly the pointwise NetworkPolicy semantics of Model/Spec.v for every pair of peers, every protocol and every port (no bound on policies, rules, peers, ports), that every listed entry is the "
+        "non-empty connection set of an included pair and every such pair is listed, and that the named-port-on-IP error arises only as documented; the mirror is tied to /repo by comparing whole `list` "
+        "reports (peers, IP partition, every connection set) of the real ConnlistFromDirPath with the model on generated manifest directories.",
+   design_ref='DESIGN.md section 6 / C01',
+   technique='Coq proof (refinement of the set-based mirror to a pointwise spec) + model/implementation correspondence on generated manifests',
+   note=TB + " Partial: uniformity of the connectivity inside one reported IP range (every address of a range behaves like the range) is checked through the IP partition comparison, not yet proved; "
+        "label-selector matching and CIDR parsing are modelled, not verified."),
+ 'C02': dict(
+   text="Machine-checked proof (Coq) that the Allowed/Denied/Pass triple built by the mirror of UpdateWithRuleConns/CollectANPConns denotes exactly 'first matching rule of the first matching ANP', that "
+        "the per-direction and two-direction connection sets equal the pointwise ANP > NetworkPolicy > BANP semantics of Model/Spec.v for all inputs, that admin policies never select IPs, and that the sorted ANP list "
+        "does not depend on the input order (any permutation); tied to /repo by whole-report comparison on generated worlds with ANPs/BANP given out of priority order.",
+   design_ref='DESIGN.md section 6 / C02',
+   technique='Coq proof (invariant over rules and ANPs, refinement to pointwise spec, uniqueness of sorted permutation) + model/implementation correspondence',
+   note=TB),
+ 'C05': dict(
+   text="Machine-checked proof (Coq) that the boolean checker wf_report_b decides well-formedness of a report of any size (one entry per ordered pair, no self or IP-IP pair, no empty connection, canonical "
+        "connections with 'all' flagged, IP peers tiling 0.0.0.0-255.255.255.255 disjointly) and that the model's own entries satisfy the per-entry clauses for all inputs; the checker is then run on every "
+        "report the real implementation produces for generated worlds (with/without ANP/BANP, focus) and the peer list is compared with the model's partition.",
+   design_ref='DESIGN.md section 6 / C05',
+   technique='Coq-verified checker applied to implementation outputs + proof of the invariant on the model + correspondence',
+   note=TB + " Partial: that the model's own peer list tiles the address space (elementary partition) is established by the verified checker on every run, not yet by a theorem."),
+ 'C19': dict(
+   text="Machine-checked proof (Coq): (1) for ANY correct comparison sort modelled as a decision tree, running it with the Go callback records an error whenever two priorities are equal and (n>=2) whenever one is "
+        "out of range — so detection cannot depend on sort.Slice internals; (2) in the model of addObjectsByKind every listed conflict (same priority, out-of-range priority, same ANP name, same NetworkPolicy name, "
+        "second BANP, BANP not named default, inconsistent owner labels) is rejected for arbitrary surrounding resources and positions; no false priority conflicts. Tied to /repo by conflict injection through the real list and diff.",
+   design_ref='DESIGN.md section 6 / C19',
+   technique='Coq proof (decision-tree argument over all comparison sorts; insertion-position-independent rejection) + conflict-injection correspondence',
+   note=TB + " Assumed of sort.Slice: it is a deterministic comparison sort, correct on injective keys, comparing only indices in range."),
  'C11': dict(
    text="Machine-checked proof (Coq) that the Gallina mirror of ConnectionSet/PortSet denotes exactly the right (protocol,port) set under every operation, "
         "that the canonical form is unique (equal sets are identical and print identically), that the full set is flagged AllowAll, and that the canonical-form invariant "
